@@ -12,6 +12,9 @@
     located                 the row of the error (and of every collected issue) is the origin row of a TABLE block,
                             i.e. (C03) the index of its `**` row in the input
     earlier_blocks_delivered  blocks cut from a common prefix of two inputs are delivered identically, first
+    segment_resync / collecting_resync   a marker row cuts the stream: the blocks of p ++ q (q starting `**`, `***`,
+                            `:`) are those of p followed by those of q read alone, origin rows shifted — undamaged
+                            blocks after the damage are delivered too
     collecting_continues    with a collecting tracker: every block's own verdict, in order; one issue per failing
                             block; reading goes on to the end
     raising_stops_at_first  with the default tracker: the deliveries up to the first failing block, then its error
@@ -182,7 +185,6 @@ theorem dtValues_errors (ext : Ext) (rep : Str) (cells : List Cell) (e : PyExc)
       cases hr : dtValues ext rep cs with
       | error e' => simp [hr, Except.map] at h; subst h; exact ih hr
       | ok r => simp [hr, Except.map] at h
-    | raiseValue => simp [hc] at h; left; exact h.symm
     | raises n =>
       simp [hc] at h
       obtain ⟨s, hs⟩ := dtCell_raises ext c n hc
@@ -710,6 +712,168 @@ theorem verdict_tracker_free (form : Form) (filter : Option (BT → Str → Bool
     (b : Block Row) :
     verdict ⟨form, filter, .raising, ext⟩ fcfg b = verdict ⟨form, filter, .collecting, ext⟩ fcfg b := rfl
 
+/-! ## 6b. re-synchronisation: a marker row cuts the stream; what follows is read as if it stood alone -/
+
+section
+variable {R : Type} (kindOf : R → Kind)
+
+/-- the same block, `n` rows further down -/
+def shiftB (n : Nat) (b : Block R) : Block R := { b with first := b.first + n }
+def shiftS (n : Nat) (s : St R) : St R := { s with first := s.first + n }
+
+/-- a row that always starts a new block of its own: `**table`, `***directive`, `:template` -/
+def IsMarker (k : Kind) : Prop := k = .tbl ∨ k = .dir ∨ k = .tpl
+
+theorem emit_shift (n : Nat) (s : St R) : emit (shiftS n s) = (emit s).map (shiftB n) := by
+  unfold emit shiftS shiftB
+  cases s.grid <;> simp
+
+theorem step_shift (n i : Nat) (s : St R) (r : R) :
+    (step kindOf (shiftS n s) (i + n) r).1 = shiftS n (step kindOf s i r).1 ∧
+    (step kindOf (shiftS n s) (i + n) r).2 = (step kindOf s i r).2.map (shiftB n) := by
+  have he := emit_shift n s
+  unfold step switch
+  cases hk : kindOf r with
+  | plain => simp [shiftS]
+  | mta =>
+    by_cases hs : s.state = .metadata
+    · simp [shiftS, hs]
+    · simp only [show (shiftS n s).state = s.state from rfl, hs, if_false, he]; simp [shiftS]
+  | blankRow keep =>
+    by_cases hs : s.state = .blank
+    · simp [shiftS, hs]
+    · simp only [show (shiftS n s).state = s.state from rfl, hs, if_false, he]; simp [shiftS]
+  | tbl => simp only [he]; simp [shiftS]
+  | dir => simp only [he]; simp [shiftS]
+  | tpl => simp only [he]; simp [shiftS]
+
+theorem go_shift (n i : Nat) (s : St R) (rs : List R) :
+    go kindOf (i + n) (shiftS n s) rs = (go kindOf i s rs).map (shiftB n) := by
+  induction rs generalizing i s with
+  | nil => simp [go, emit_shift]
+  | cons r rs ih =>
+    have hs := step_shift kindOf n i s r
+    simp only [go, hs.1, hs.2, List.map_append]
+    have := ih (i + 1) (step kindOf s i r).1
+    rw [show i + 1 + n = i + n + 1 by omega] at this
+    rw [this]
+
+theorem go_append (i : Nat) (s : St R) (p q : List R) :
+    go kindOf i s (p ++ q) =
+      (emitted kindOf i s p).1 ++ go kindOf (i + p.length) (emitted kindOf i s p).2 q := by
+  induction p generalizing i s with
+  | nil => simp [emitted]
+  | cons r rs ih =>
+    simp only [List.cons_append, go, emitted, ih, List.append_assoc, List.length_cons]
+    rw [show i + 1 + rs.length = i + (rs.length + 1) by omega]
+
+/-- a marker row ends whatever block is open and starts its own, whatever the state -/
+theorem go_marker (i : Nat) (s : St R) (r : R) (rs : List R) (hm : IsMarker (kindOf r)) :
+    ∃ nxt, go kindOf i s (r :: rs) = emit s ++ go kindOf (i + 1) ⟨[r], nxt, i⟩ rs := by
+  rcases hm with h | h | h
+  · exact ⟨.table, by simp [go, step, switch, h]⟩
+  · exact ⟨.directive, by simp [go, step, switch, h]⟩
+  · exact ⟨.template, by simp [go, step, switch, h]⟩
+
+theorem go_marker_state (i j : Nat) (s s' : St R) (r : R) (rs : List R) (hm : IsMarker (kindOf r)) :
+    ∃ nxt, go kindOf i s (r :: rs) = emit s ++ go kindOf (i + 1) ⟨[r], nxt, i⟩ rs ∧
+           go kindOf j s' (r :: rs) = emit s' ++ go kindOf (j + 1) ⟨[r], nxt, j⟩ rs := by
+  rcases hm with h | h | h
+  · exact ⟨.table, by simp [go, step, switch, h], by simp [go, step, switch, h]⟩
+  · exact ⟨.directive, by simp [go, step, switch, h], by simp [go, step, switch, h]⟩
+  · exact ⟨.template, by simp [go, step, switch, h], by simp [go, step, switch, h]⟩
+
+/-- **re-synchronisation**: if the rows `q` begin with a marker row, the blocks of `p ++ q` are the blocks of `p`
+    followed by the blocks of `q` read on its own, moved down by the length of `p`. Nothing in `p` — however
+    damaged — reaches past that marker row. -/
+theorem run_resync (p : List R) (r : R) (qs : List R) (hm : IsMarker (kindOf r)) :
+    run kindOf (p ++ r :: qs) = run kindOf p ++ (run kindOf (r :: qs)).map (shiftB p.length) := by
+  unfold run
+  rw [go_append, C03.go_eq_emitted kindOf 0 initSt p]
+  obtain ⟨nxt, h1, h2⟩ := go_marker_state kindOf (0 + p.length) 0 (emitted kindOf 0 initSt p).2 initSt r qs hm
+  rw [h1, h2]
+  have he : emit (initSt : St R) = [] := rfl
+  rw [he, List.nil_append, List.append_assoc]
+  congr 2
+  have := go_shift kindOf p.length (0 + 1) ⟨[r], nxt, 0⟩ qs
+  simp only [shiftS] at this
+  rw [← this]
+  congr 1
+  omega
+
+end
+
+/-- the marker rows of native input: a text first cell classified `**`, `***` or `:`-template -/
+theorem segment_resync (p : List Row) (r : Row) (qs : List Row) (hm : IsMarker (rowKind r)) :
+    segment (p ++ r :: qs) = segment p ++ (segment (r :: qs)).map (shiftB p.length) :=
+  run_resync rowKind p r qs hm
+
+def shiftD (n : Nat) (d : Delivered) : Delivered := { d with first := d.first + n }
+
+theorem verdict_shift (cfg : Config) (fcfg : FixCfg) (n : Nat) (b : Block Row) :
+    verdict cfg fcfg (shiftB n b) = verdict cfg fcfg b := rfl
+
+theorem runV_shift (cfg : Config) (fcfg : FixCfg) (n : Nat) (bs : List (Block Row)) :
+    runV cfg fcfg (bs.map (shiftB n)) =
+      ((runV cfg fcfg bs).1.map (shiftD n), (runV cfg fcfg bs).2.1.map (· + n),
+       match (runV cfg fcfg bs).2.2 with
+       | .exhausted => .exhausted
+       | .inputError r => .inputError (r + n)
+       | .escaped e => .escaped e) := by
+  induction bs with
+  | nil => simp [runV]
+  | cons b bs ih =>
+    simp only [List.map_cons, runV_cons, verdict_shift, ih]
+    cases hv : verdict cfg fcfg b with
+    | none => rfl
+    | some res =>
+      cases res with
+      | ok v => simp [shiftD, shiftB]
+      | error e =>
+        simp only []
+        by_cases hc : caught e = true
+        · simp only [hc, if_true]
+          cases cfg.tracker <;> simp [shiftB]
+        · simp [hc]
+
+/-- **undamaged blocks after the damage are delivered too** (collecting tracker, external law): split the input
+    at any marker row, `rows = p ++ q` with `q` starting `**…`, `***…` or `:…`. The read delivers what reading `p`
+    alone delivers, followed by exactly what reading `q` alone delivers — same block types, same values, origin
+    rows moved down by the length of `p` — and likewise for the issues. So whatever is damaged inside `p`, every
+    block from that marker row on comes out as in the undamaged input. -/
+theorem collecting_resync (cfg : Config) (p : List Row) (r : Row) (qs : List Row) (f : Fixer)
+    (hm : IsMarker (rowKind r)) (ht : cfg.tracker = .collecting) (law : DtLaw cfg.ext) :
+    (parseBlocks cfg (p ++ r :: qs) f).blocks =
+      (parseBlocks cfg p f).blocks ++ (parseBlocks cfg (r :: qs) f).blocks.map (shiftD p.length) ∧
+    (parseBlocks cfg (p ++ r :: qs) f).issues =
+      (parseBlocks cfg p f).issues ++ (parseBlocks cfg (r :: qs) f).issues.map (· + p.length) := by
+  have h0 := (runBlocks_eq_runV cfg (segment (p ++ r :: qs)) f).1
+  have h1 := (runBlocks_eq_runV cfg (segment p) f).1
+  have h2 := (runBlocks_eq_runV cfg (segment (r :: qs)) f).1
+  have e1 := collecting_continues cfg p f ht law
+  have hp : (runV cfg f.cfg (segment p)).2.2 = .exhausted := by
+    have : view (parseBlocks cfg p f) = runV cfg f.cfg (segment p) := h1
+    rw [← this, e1]
+  have hr : runV cfg f.cfg (segment (p ++ r :: qs)) =
+      ((runV cfg f.cfg (segment p)).1 ++ (runV cfg f.cfg (segment (r :: qs))).1.map (shiftD p.length),
+       (runV cfg f.cfg (segment p)).2.1 ++ (runV cfg f.cfg (segment (r :: qs))).2.1.map (· + p.length),
+       match (runV cfg f.cfg (segment (r :: qs))).2.2 with
+       | .exhausted => .exhausted
+       | .inputError r => .inputError (r + p.length)
+       | .escaped e => .escaped e) := by
+    rw [segment_resync p r qs hm, runV_append, runV_shift, hp]
+  rw [hr] at h0
+  simp only [view, parseBlocks] at h0 h1 h2 ⊢
+  have b0 := congrArg (fun x => x.1) h0
+  have i0 := congrArg (fun x => x.2.1) h0
+  have b1 := congrArg (fun x => x.1) h1
+  have i1 := congrArg (fun x => x.2.1) h1
+  have b2 := congrArg (fun x => x.1) h2
+  have i2 := congrArg (fun x => x.2.1) h2
+  simp only [] at b0 i0 b1 i1 b2 i2
+  rw [b0, i0, b1, i1, b2, i2]
+  exact ⟨rfl, rfl⟩
+
 /-! ## 7. non-vacuity -/
 
 theorem exampleExt_law : DtLaw exampleExt := by
@@ -745,6 +909,9 @@ example :
      endCode (parseBlocks ⟨.jsondata, none, .raising, exampleExt⟩
        [[.str "**t*".toList], [.str "all".toList], [.str "x".toList]] ⟨FixCfg.strict, 0, 0, []⟩).ending) =
     ((1, 0), (1, 1), (1, 0)) := by decide
+
+/-- re-synchronisation on the example: the third table starts at a marker row -/
+example : IsMarker (rowKind [.str "**c".toList]) := Or.inl (by decide)
 
 example : readCsvRows ';' "**t;\nall\n\na;b".toList =
     [[.str "**t".toList, .str [] ], [.str "all".toList], [.str [] ], [.str "a".toList, .str "b".toList]] := by decide
